@@ -1,2 +1,68 @@
-From HS Require Import Base.Prelude Model.ZincParse.
-Theorem C09_placeholder : True. Proof. exact I. Qed.
+(* C09 - the ZINC reader fails only in the documented way.
+   Statements about Model/ZincParse.v (the pyparsing grammar of hszinc/zincparser.py with
+   its parse actions and the exception handling of parse_grid / parse_scalar / parser.parse). *)
+From Coq Require Import String.
+From Coq Require Import List NArith Bool.
+From HS Require Import Base.Prelude Model.Value Model.Escape Model.Version Model.Json Model.ZincParse.
+From HS Require Import Proofs.ZincParseP.
+Import ListNotations.
+Open Scope N_scope.
+
+(* grid parsing: for EVERY text, grids or ZincParseException - nothing else *)
+Theorem C09_grid_total : forall t, (exists g, zparse_grid t = Ok g) \/ zparse_grid t = Raise ZincParseException.
+Proof. exact zparse_grid_total. Qed.
+Theorem C09_document_total : forall t, (exists gs, zparse_doc t = Ok gs) \/ zparse_doc t = Raise ZincParseException.
+Proof. exact zparse_doc_total. Qed.
+
+(* scalar parsing raises only ValueError-family exceptions (ZincParseException is a ValueError).
+   PARTIAL: the model's own OutOfFuel marker is not excluded by proof (nesting deeper than the fuel
+   S (S (length t)) is impossible because every level consumes a bracket, but that is not proved here);
+   the correspondence check reports any OutOfFuel answer as a difference. *)
+Theorem C09_scalar_exceptions_partial : forall ver3 t e,
+  zparse_scalar ver3 t = Raise e -> e = ZincParseException \/ e = ValueError \/ e = OutOfFuel.
+Proof. exact zparse_scalar_exn. Qed.
+
+(* every rule of the grammar, at every nesting depth: a parse action raises ValueError only *)
+Theorem C09_actions_raise_valueerror_only : forall fuel ver3 t e rest,
+  (p_scalar fuel ver3 t = Some (Raise e, rest) \/ p_grid fuel ver3 t = Some (Raise e, rest)) -> e = ValueError \/ e = OutOfFuel.
+Proof. intros fuel ver3 t e rest [H|H]; [exact (proj1 (safe_scalar_grid fuel ver3) _ _ _ H)|exact (proj2 (safe_scalar_grid fuel ver3) _ _ _ H)]. Qed.
+
+(* the un-escaping action of string / URI literals never raises on what the character regex matched *)
+Theorem C09_literals_never_raise : forall t e rest, hs_str t <> Some (Raise e, rest) /\ hs_uri t <> Some (Raise e, rest).
+Proof. intros t e rest. split; [apply noraise_hs_str|apply noraise_hs_uri]. Qed.
+
+(* structurally broken documents *)
+Theorem C09_missing_header_rejected : forall t, sniff_version t = None -> zparse_grid t = Raise ZincParseException.
+Proof. exact no_header_rejected. Qed.
+Theorem C09_unterminated_string_rejected : forall t, ~ In DQ t -> hs_str (DQ :: t) = None.
+Proof. intros t H. exact (unterminated_rejected DQ str_esc_letters false t H). Qed.
+Theorem C09_unterminated_uri_rejected : forall t, ~ In BQ t -> hs_uri (BQ :: t) = None.
+Proof. intros t H. exact (unterminated_rejected BQ uri_esc_letters true t H). Qed.
+(* under version 2.0 nothing that starts with [ { or < is a scalar *)
+Theorem C09_v3_brackets_rejected_under_2_0 : forall fuel c t,
+  (c = 91 \/ c = 123 \/ c = 60) -> p_scalar (S fuel) false (c :: t) = None.
+Proof.
+  intros fuel c t H. apply scalar_2_0_opener. unfold opener.
+  destruct H as [H|[H|H]]; subst; reflexivity.
+Qed.
+
+(* non-vacuity: the model accepts a real document and rejects broken ones *)
+Example C09_accepts : exists g, zparse_doc (s_ "ver:""3.0""
+a,b
+1,[M,""x""]
+") = Ok [g].
+Proof. vm_compute. eexists. reflexivity. Qed.
+Example C09_rejects_bad_escape : zparse_doc (s_ "ver:""3.0""
+a
+""\q""
+") = Raise ZincParseException.
+Proof. vm_compute. reflexivity. Qed.
+
+Print Assumptions C09_grid_total.
+Print Assumptions C09_document_total.
+Print Assumptions C09_scalar_exceptions_partial.
+Print Assumptions C09_actions_raise_valueerror_only.
+Print Assumptions C09_literals_never_raise.
+Print Assumptions C09_missing_header_rejected.
+Print Assumptions C09_unterminated_string_rejected.
+Print Assumptions C09_v3_brackets_rejected_under_2_0.
